@@ -100,6 +100,9 @@ def specs(tier):
     out.append(dict(module="checks.c05", scenario="Measure", params=dict(A="hbar", B="vbar", lim="1/3"), time_budget=150 if tier == "quick" else 2400))
     for lo, hi in ((F(-3, 2), F(-1, 2)), (F(-1, 2), F(1, 2)), (F(1, 2), 1), (1, F(3, 2))):
         out.append(dict(module="checks.c05", scenario="Measure", params=dict(A="square", B="hollow2", slab=[str(lo), str(hi)]), time_budget=150 if tier == "quick" else 2400))
+    for lo, hi in ((F(-9, 20), F(-3, 20)), (F(-3, 20), F(3, 20)), (F(3, 20), F(9, 20))) if tier == "quick" else ((F(-2), F(-9, 20)), (F(-9, 20), F(-3, 20)), (F(-3, 20), F(3, 20)), (F(3, 20), F(9, 20)), (F(9, 20), F(2))):
+        # nested frames (depth 2) against a small square that sweeps through the centre
+        out.append(dict(module="checks.c05", scenario="Measure", params=dict(A="bullseye", B="small", slab=[str(lo), str(hi)]), time_budget=150 if tier == "quick" else 2400))
     for a, b in pairs:
         for lo, hi in slabs:  # the parameter range is cut into slabs so that one pair uses several cores
             out.append(dict(module="checks.c05", scenario="Measure", params=dict(A=a, B=b, slab=[str(lo), str(hi)]), time_budget=150 if tier == "quick" else 2400))
